@@ -43,6 +43,7 @@ func c11(c *Ctx) {
 			d, ok := in.(*ssa.Defer)
 			return ok && p.FuncName(p.calleeFunc(d)) == undo
 		}, 12, "the release-on-failure handler is deferred before the first lock attempt", "")
+		c.Guarded("full-set/all-or-nothing/only-on-nil", undo, p.Calls("litefs.(*GuardSet).Unlock"), gs(G(`\(nil == .*\)|\(.* == nil\)`, true)), 1, "the handler releases only when the result is nil", "a successful attempt that releases its guards hands out a write lock set that holds nothing")
 		c.OnlyGuards("full-set/all-or-nothing/on-nil", undo, p.Calls("litefs.(*GuardSet).Unlock"), gs(G(`\(nil == .*\)|\(.* == nil\)`, true)), 1, "the handler releases everything exactly when the result is nil", "")
 	}
 	var fails []string
